@@ -160,6 +160,9 @@ func (idx *index) get(hash uint32, matchKey matchKeyFunc) error {
 
 func (idx *index) findInsertionBucket(newSlot slot, matchKey matchKeyFunc) (*slotWriter, bool, error) {
 	sw := &slotWriter{}
+	// The first empty slot in the bucket chain. Deletes can leave empty slots in any bucket of the
+	// chain, the rest of the chain still has to be searched for the key.
+	var emptySlot *slotWriter
 	it := idx.newBucketIterator(idx.bucketIndex(newSlot.hash))
 	for {
 		b, err := it.next()
@@ -175,8 +178,10 @@ func (idx *index) findInsertionBucket(newSlot slot, matchKey matchKeyFunc) (*slo
 			sl := b.slots[i]
 			if sl.offset == 0 {
 				// Found an empty slot.
-				sw.slotIdx = i
-				return sw, false, nil
+				if emptySlot == nil {
+					emptySlot = &slotWriter{bucket: &b, slotIdx: i}
+				}
+				break
 			}
 			if newSlot.hash != sl.hash {
 				continue
@@ -194,6 +199,9 @@ func (idx *index) findInsertionBucket(newSlot slot, matchKey matchKeyFunc) (*slo
 		}
 		if b.next == 0 {
 			// No more buckets in the chain.
+			if emptySlot != nil {
+				return emptySlot, false, nil
+			}
 			sw.slotIdx = i
 			return sw, false, nil
 		}
